@@ -182,7 +182,7 @@ TEXT["C07"] = {
           "the sampler returns digits < |x| recombining to y < r and the element a^y (digit vectors <-> [0,r) bijective); every output of final_exponentiation on a non-zero argument - hence every pairing value - is in GT.  "
           "Ingredients, all machine-checked: loop invariant of the interleaved 4-way square-and-multiply with found_one for EVERY digit vector over any commutative ring (GtExp); C06's x-adic recombination; q = -|x| mod r; IsCyclotomic coordinate predicate = weakest hypothesis for the fast squaring, closed under *, conj, Frobenius, and equal to {0} u {a : a^(q^4-q^2+1)=1} over the concrete field (Cyclotomic, GtCapstone); Frobenius = x^(q^k) (FqTower).  "
           "The loop mirror and the sampler model are tied to the real code exactly by the judge (gt_exp, gt_ops, gt_rand, xrand with boundary exponents and byte streams hitting y = r, r+-1 and digit boundaries).",
- "note": "Not covered by a theorem: exponentiate_gt_nodiv (no Lean model; judged against a^k only); 'uniformly chosen' is the bijection statement, not a probability statement.  Trusted: loop mirror and sampler model (tied by running both), translator.",
+ "note": "exponentiate_gt_nodiv / exponentiate_restrict_cyclotomic_nodiv are modelled (Impl/GtNodiv.lean, both the default and the RESIST_SIDE_CHANNELS loop; the judge runs the model on every gt_expnd line) and proved equal to a^k for every cyclotomic a and every exponent width (Properties/C07c.lean), with a witness that membership cannot be dropped.  'uniformly chosen' is the bijection statement, not a probability statement.  Trusted: loop mirror and sampler model (tied by running both), translator.",
  "technique": "Lean 4 proof (loop invariant; digit arithmetic; polynomial identities for Granger-Scott squaring; finite-field theory) + differential correspondence with boundary exponents and streams",
 }
 TEXT["C04"] = {
